@@ -64,6 +64,10 @@ def fast_rmtree(base):
 
 GEN_NAME = re.compile(r"([A-Za-z_][A-Za-z_0-9]*?)_\d+_\d+")
 STUB_NAMES = ("LessThan", "Num2Bits")
+# the log line that announces the analysis of a definition: any one-word verb, any quote character (a rewording of
+# "analyzing template 'T'" must not turn every finding into a parse-stage finding)
+OWNER_LINE = re.compile(r"^\w+ (template|function) [`'\"]?([A-Za-z_$][A-Za-z_$0-9]*)[`'\"]?\.?$")
+CURVES = ["BN254", "BN254", "BLS12_381", "GOLDILOCKS"]
 
 
 def norm_msg(msg, pdir):
@@ -97,7 +101,7 @@ def findings_of_run(p, r):
     diags, owner = [], ("parse",)
     for e in ev:
         if e[0] == "log":
-            m = re.match(r"analyzing (template|function) '(.*)'$", e[1])
+            m = OWNER_LINE.match(e[1])
             if m:
                 owner = (m.group(1), m.group(2))
         else:
@@ -126,7 +130,7 @@ def findings_of_outcome(p, outcome):
         return False, {}
     out = {}
     for owner, reps in outcome["owners"].items():
-        m = re.match(r"analyzing (template|function) '(.*)'$", owner)
+        m = OWNER_LINE.match(owner)
         own = (m.group(1), m.group(2)) if m else ("parse",)
         lst = []
         for s in reps:
@@ -169,10 +173,76 @@ def drop_shape(rng, k, j):
     return defs, reason
 
 
-def gen_structure(rng, k, rich):
-    st = e2e.gen_structure(rng, rich=rich)
+SIMPLE_T = re.compile(r"^template (\w+)\(n\) \{")
+SIMPLE_F = re.compile(r"^function (\w+)\(a, b\) \{")
+
+
+def insert_before_last(text, marker, line):
+    i = text.rfind(marker)
+    return text if i < 0 else text[:i] + line + "\n    " + text[i:]
+
+
+def enrich(rng, st, feats_seen):
+    """Features the structures of lib/e2e.py do not have (third review): INTERMEDIATE signals with one constraint each
+    (CS0017 - the reports of that pass come out of a loop over a HashMap), calls of functions from templates and from
+    functions, ARRAYS of components."""
+    tnames = [d[1] for f in st["files"] for d in f["defs"] if d[0] == "template" and SIMPLE_T.match(d[2])]
+    fnames = [d[1] for f in st["files"] for d in f["defs"] if d[0] == "function" and SIMPLE_F.match(d[2])]
+    for f in st["files"]:
+        nd = []
+        for j, d in enumerate(f["defs"]):
+            kind, name, text = d
+            if kind == "template" and name not in STUB_NAMES and "out <== in;" in text:
+                if rng.random() < 0.45:
+                    n = rng.choice([2, 2, 3, 4])
+                    line = " ".join("signal m%d; m%d <== in * %d;" % (i, i, i + 2) for i in range(n))
+                    text = insert_before_last(text, "out <== in;", line)
+                    feats_seen["intermediate"] = feats_seen.get("intermediate", 0) + 1
+                if fnames and rng.random() < 0.3:
+                    text = insert_before_last(text, "out <== in;", "var fc%d = %s(n, %d);" % (j, rng.choice(fnames), rng.randint(1, 9)))
+                    feats_seen["call_from_template"] = feats_seen.get("call_from_template", 0) + 1
+                others = [t for t in tnames if t != name]
+                if others and rng.random() < 0.3:
+                    o = rng.choice(others)
+                    used = rng.random() < 0.5
+                    line = ("component ca%d[2]; for (var ci = 0; ci < 2; ci++) { ca%d[ci] = %s(1); ca%d[ci].in <== in; }"
+                            % (j, j, o, j))
+                    if used:
+                        line += " signal output cy%d; cy%d <== ca%d[0].out + ca%d[1].out;" % (j, j, j, j)
+                    text = insert_before_last(text, "out <== in;", line)
+                    feats_seen["component_array"] = feats_seen.get("component_array", 0) + 1
+            elif kind == "function" and "return a + b;" in text:
+                others = [g for g in fnames if g != name]
+                if others and rng.random() < 0.35:
+                    text = insert_before_last(text, "return a + b;", "b = b + %s(a, %d);" % (rng.choice(others), rng.randint(1, 9)))
+                    feats_seen["call_from_function"] = feats_seen.get("call_from_function", 0) + 1
+            nd.append((kind, name, text))
+        f["defs"] = nd
+
+
+def big_structure(rng, k):
+    """More templates than any cache bound a runner might have (the review's edit: eviction at 64), many of them looked
+    up by others before or after they are analysed themselves."""
+    n = rng.randint(70, 96)
+    names = ["B%d_%d" % (k, i) for i in range(n)]
+    files = [{"name": "user%d.circom" % i, "user": True, "pragma": True, "includes": [], "defs": [], "main": None} for i in range(2)]
+    for i, name in enumerate(names):
+        feats = [rng.choice(["sig", "unused", "constcond", "shadow", "cmp"]) for _ in range(rng.randint(0, 2))]
+        if rng.random() < 0.6:
+            feats.append(rng.choice(["inst", "inst", "instused"]))
+        others = [x for x in names if x != name]
+        files[rng.randint(0, 1)]["defs"].append(("template", name, e2e.template_text(rng, name, feats, others)))
+    return {"files": files}
+
+
+def gen_structure(rng, k, rich, feats_seen, big=False):
+    if big:
+        st = big_structure(rng, k)
+        feats_seen["more_than_64_templates"] = feats_seen.get("more_than_64_templates", 0) + 1
+    else:
+        st = e2e.gen_structure(rng, rich=rich)
     shapes = []
-    if rng.random() < 0.3:
+    if rng.random() < 0.3 and not big:
         user = [f for f in st["files"] if f["user"]]
         for j in range(rng.choice([1, 1, 2])):
             defs, reason = drop_shape(rng, k, j)
@@ -181,7 +251,116 @@ def gen_structure(rng, k, rich):
                 f["defs"].insert(rng.randint(0, len(f["defs"])), d)
             shapes.append(reason)
     st["shapes"] = shapes
+    enrich(rng, st, feats_seen)
+    st["curve"] = rng.choice(CURVES)
+    # the included-only files in a directory of their own, found through -L
+    st["libdir"] = any(not f["user"] for f in st["files"]) and rng.random() < 0.3
+    if st["curve"] != "BN254":
+        feats_seen["non_default_curve"] = feats_seen.get("non_default_curve", 0) + 1
+    if st["libdir"]:
+        feats_seen["library_directory"] = feats_seen.get("library_directory", 0) + 1
     return st
+
+
+LIBDIR = "ldir"
+
+
+def render(st, tag, argv=None):
+    """e2e.render_structure + the options of the structure: --curve, and -L with the included-only files moved there"""
+    p = e2e.render_structure(st, tag=tag, argv=argv)
+    if st.get("libdir"):
+        moved = {f["name"] for f in st["files"] if not f["user"]}
+        p.files = {(LIBDIR + "/" + n if n in moved else n): t for n, t in p.files.items()}
+        p.libs = [LIBDIR]
+    p.meta["curve"] = st.get("curve", "BN254")
+    return p
+
+
+# ---- duplicated names (defect D22, repaired in /repo f1ec9dc): no carve-out, and an oracle ----------------------------
+
+def dup_projects(rng):
+    """Projects in which a name is defined twice, with the project that the repaired code must treat it like: the one in
+    which every LATER definition of a name (file-id order = order in which the files are read: the command line from its
+    LAST file to its first, the includes of a file right after it; then source order) is deleted.
+    -> list of (project with duplicates, reduced project, number of deleted definitions, shape)"""
+    def t(name, op, extra=""):
+        return "template %s(n) {\n    signal input in;\n    signal output out;\n    %s\n    out %s in;\n}" % (name, extra, op)
+
+    def fn(name, body):
+        return "function %s(a, b) {\n    %s\n    return a + b;\n}" % (name, body)
+    out = []
+    pragma = "pragma circom 2.0.0;\n"
+    user = "template User(n) {\n    signal input in;\n    signal output out;\n    component k = T(1);\n    k.in <== in;\n    out <== in;\n}"
+    for rep in range(2):
+        a = t("T", "<==", "var ua%d = n + 1;" % rep)
+        b = t("T", "<--", "signal output extra; extra <-- in * in;")
+        other = t("Other%d" % rep, "<==", "var c = 0; if (1 == 1) { c = 1; }")
+        for order in (["a.circom", "b.circom"], ["b.circom", "a.circom"]):
+            # FileStack is a stack: the LAST file of the command line is read first and gets the smallest FileID
+            first, second = (a, b) if order[-1] == "a.circom" else (b, a)
+            # two user files, library mode
+            files = {"a.circom": pragma + a + "\n" + user + "\n", "b.circom": pragma + b + "\n" + other + "\n"}
+            red = dict(files)
+            red[order[0]] = red[order[0]].replace(second + "\n", "")
+            out.append((files, red, order, 1, "two-files-library"))
+            # the same with a main component (program mode)
+            files2 = dict(files)
+            files2["a.circom"] += "component main = User(1);\n"
+            red2 = dict(red)
+            red2["a.circom"] += "component main = User(1);\n"
+            out.append((files2, red2, order, 1, "two-files-program"))
+        # twice in one file
+        files = {"a.circom": pragma + a + "\n" + user + "\n" + b + "\n"}
+        out.append((files, {"a.circom": pragma + a + "\n" + user + "\n"}, ["a.circom"], 1, "one-file"))
+        # a function and a template of the same name, and a name defined three times
+        f1 = fn("T", "var uf = a + 1;")
+        files = {"a.circom": pragma + f1 + "\n" + other + "\n", "b.circom": pragma + b + "\n" + a + "\n"}
+        out.append((files, {"a.circom": files["a.circom"], "b.circom": pragma}, ["b.circom", "a.circom"], 2, "function-and-template"))
+        out.append((files, {"a.circom": pragma + other + "\n", "b.circom": pragma + b + "\n"}, ["a.circom", "b.circom"], 2,
+                    "function-and-template"))
+        # the duplicate lives in an included file (the file named on the command line is read first)
+        files = {"a.circom": pragma + 'include "inc.circom";\n' + a + "\n" + user + "\n", "inc.circom": pragma + b + "\n" + other + "\n"}
+        out.append((files, {"a.circom": files["a.circom"], "inc.circom": pragma + other + "\n"}, ["a.circom"], 1, "included-file"))
+    res = []
+    for i, (files, red, argv, ndel, shape) in enumerate(out):
+        curve = rng.choice(CURVES)
+        res.append((e2e.Project(files, argv, tag="dup%d-%s" % (i, shape), meta={"curve": curve, "shape": shape}),
+                    e2e.Project(red, argv, tag="dup%d-%s-reduced" % (i, shape), meta={"curve": curve, "shape": shape}), ndel, shape))
+    return res
+
+
+INCLUDE = re.compile(r'^\s*include\s+"([^"]*)"\s*;', re.M)
+DEFINITION = re.compile(r"^\s*(template|function)\s+(?:parallel\s+|custom\s+)*([A-Za-z_$][A-Za-z_$0-9]*)\s*\(", re.M)
+
+
+def source_definitions(p):
+    """The definitions of the files the tool reads, read from the SOURCES: the files of the command line and what they
+    include (the including file's directory first, then the -L directories), each file once, in the order in which
+    FileStack hands them out (a stack).
+    -> list of (file, kind, name)"""
+    seen, order, stack = set(), [], list(p.argv)         # FileStack: the last file of the command line is read first
+    while stack:
+        name = stack.pop()
+        name = os.path.normpath(name)
+        if name in seen or name not in p.files:
+            continue
+        seen.add(name)
+        order.append(name)
+        incs = []
+        for inc in INCLUDE.findall(p.files[name]):
+            cands = [os.path.normpath(os.path.join(os.path.dirname(name), inc))] + [os.path.normpath(os.path.join(l, inc)) for l in p.libs]
+            hit = next((c for c in cands if c in p.files), None)
+            if hit:
+                incs.append(hit)
+        stack.extend(incs)
+    return [(name, m.group(1), m.group(2)) for name in order for m in DEFINITION.finditer(p.files[name])]
+
+
+def duplicated_names(p):
+    """KF_duplicate_definition of the project, evaluated on its sources: the names defined more than once (a function and
+    a template of the same name count: TemplateLibrary::new and the Merger keep one definition per NAME)"""
+    names = [n for _, _, n in source_definitions(p)]
+    return sorted({n for n in names if names.count(n) > 1})
 
 
 ANON_CALL = re.compile(r"\b([A-Za-z_][A-Za-z_0-9]*)\s*\([^()]*\)\s*\(")
@@ -255,6 +434,7 @@ def variants(ctx, st, k, extra_same=0):
     out.append(("definitions-added", s3, None))
     # unreferenced definitions removed
     refs = referenced_names(st)
+    mains_all = " ".join(f["main"] or "" for f in st["files"])
     s4 = copy.deepcopy(st)
     removed = set()
     for f in s4["files"]:
@@ -268,6 +448,34 @@ def variants(ctx, st, k, extra_same=0):
         f["defs"] = keep
     if removed:
         out.append(("definitions-removed", s4, None))
+    # a FILE added to the command line (fresh names, nobody references them) ...
+    s6 = copy.deepcopy(st)
+    defs6 = []
+    for j in range(rng.randint(1, 3)):
+        name = "FileX%d_%d" % (k, j)
+        feats = [rng.choice(e2e.TEMPLATE_FEATURES) for _ in range(rng.randint(1, 4))]
+        defs6.append(("template", name, e2e.template_text(rng, name, feats, existing)))
+    if rng.random() < 0.5:
+        defs6.append(("function", "filexf%d" % k, e2e.function_text(rng, "filexf%d" % k, rng.sample(e2e.FUNCTION_FEATURES, 2))))
+    s6["files"].insert(rng.randint(0, len(s6["files"])),
+                       {"name": "userx.circom", "user": True, "pragma": rng.random() < 0.8, "includes": [], "defs": defs6, "main": None})
+    out.append(("file-added", s6, None))
+    # ... and a file taken off it: one that nobody includes, none of whose definitions is referenced from another file, and
+    # whose includes the remaining files of the command line make too
+    ufiles = [f for f in st["files"] if f["user"]]
+    for f in ufiles if len(ufiles) > 1 else []:
+        rest = [g for g in st["files"] if g is not f]
+        if f["main"] or any(f["name"] in g["includes"] for g in rest):
+            continue
+        if not set(f["includes"]) <= {i for g in rest if g["user"] for i in g["includes"]}:
+            continue
+        own = {d[1] for d in f["defs"]}
+        if any(refs.get(d[1], set()) - own for d in f["defs"]) or any(re.search(r"\b%s\b" % re.escape(n), mains_all) for n in own):
+            continue
+        s7 = copy.deepcopy(st)
+        s7["files"] = [g for g in s7["files"] if g["name"] != f["name"]]
+        out.append(("file-removed", s7, None))
+        break
     # a REFERENCED definition changed: only the definitions that look it up (or instantiate it anonymously) may change
     cands = instantiated_names(st)
     mains = " ".join(f["main"] or "" for f in st["files"])
@@ -302,7 +510,33 @@ def variants(ctx, st, k, extra_same=0):
 
 
 def deftexts(st):
+    """{(kind, name): (file, text)} - the source level of Model.RunnerSrc (sp_defs with distinct keys: wf_sproject)"""
     return {(d[0], d[1]): (f["name"], d[2]) for f in st["files"] for d in f["defs"]}
+
+
+def wf_sproject_holds(st):
+    """wf_sproject of the structure, evaluated: no (kind, name) - in fact no NAME - is defined twice"""
+    names = [d[1] for f in st["files"] for d in f["defs"]]
+    return len(names) == len(set(names))
+
+
+def execute_runs(cli, projects, runs):
+    """e2e.execute_runs with the options a project carries: -L directories and --curve (meta["curve"])"""
+    def one(i):
+        r = runs[i]
+        p = projects[r["p"]]
+        sarif_path = os.path.join(p.dir, "out_%d.sarif" % i) if r["sarif"] else None
+        args = e2e.cli_args(r["level"], r["allow"], r["verbose"], sarif_path, p.abs_libs(), p.meta.get("curve"))
+        rc, out, err = e2e.run_cli(cli, p.abs_argv(), args, cwd=p.dir)
+        r["exit"], r["events"], r["stderr"], r["sarif_path"] = rc, e2e.parse_stdout(out), err[-400:], sarif_path
+        if sarif_path:
+            r["sarif_doc"] = e2e.parse_sarif(sarif_path)
+            try:
+                os.remove(sarif_path)
+            except OSError:
+                pass
+    e2e.pmap(one, range(len(runs)))
+    return runs
 
 
 # ---------------------------------------------------------------------------
@@ -313,13 +547,20 @@ def harness_lines(mode, projects, extra):
     hb = common.build_harness("c17")
     lines = []
     for p, x in zip(projects, extra):
-        d = {"files": p.abs_argv(), "libs": p.abs_libs()}
+        d = {"files": p.abs_argv(), "libs": p.abs_libs(), "curve": p.meta.get("curve") or "BN254"}
         d.update(x)
         lines.append(json.dumps(d))
-    out = common.run_lines(hb, [mode], lines, shards=common.NPROC, timeout=1500) if lines else []
+    # run_lines cuts the lines into contiguous chunks: deal them out with a stride so that neighbours (the variants of one big
+    # structure) land in different processes
+    n, S = len(lines), common.NPROC
+    perm = [i for r in range(S) for i in range(r, n, S)]
+    out = common.run_lines(hb, [mode], [lines[i] for i in perm], shards=S, timeout=1500) if lines else []
     if len(out) != len(lines):
         raise common.BuildError("harness c17 %s: %d answers for %d projects" % (mode, len(out), len(lines)), "")
-    return [json.loads(l) for l in out]
+    res = [None] * n
+    for i, l in zip(perm, out):
+        res[i] = json.loads(l)
+    return res
 
 
 def norm_report(p, r):
@@ -390,7 +631,7 @@ def context_dependent_ids(repo):
     return sorted({i for v in mods.values() for i in v}), mods
 
 
-def compare(ref, got, kind, A, B, infl_a, infl_b, ctx_ids=("CS0018",), stats=None):
+def compare(ref, got, kind, A, B, infl_a, infl_b, ctx_ids=("CS0018",), stats=None, ignore_files=()):
     """Compares the findings of a base project (ref) and a variant (got).
     A, B: {(kind, name): (file, text)}; infl_x: {(kind, name): set of names that may influence it}.
     -> (list of owners whose findings differ although nothing they reference changed,
@@ -446,8 +687,11 @@ def compare(ref, got, kind, A, B, infl_a, infl_b, ctx_ids=("CS0018",), stats=Non
         texts = [t[1] for o in touched for t in (A.get(o), B.get(o)) if t]
 
         def located_in_touched(x):
-            labs = x[3] if len(x) > 3 else ()
-            return any(l[1] != "?" and any(l[1] in t for t in texts) for l in labs)
+            # ... or in a file that was added to / taken off the command line (its pragma warning, its include errors)
+            labs = (x[3] if len(x) > 3 else ()) + (x[4] if len(x) > 4 else ())
+            if any(("/" + f + "`") in x[2] or ("/" + f + '"') in x[2] for f in ignore_files):
+                return True          # label-less reports that name the file in their message (no version pragma)
+            return any(l[0] in ignore_files or (l[1] != "?" and any(l[1] in t for t in texts)) for l in labs)
         ra = sorted(x for x in pa if not located_in_touched(x))
         rb = sorted(x for x in pb if not located_in_touched(x))
         if ra != rb:
@@ -484,45 +728,146 @@ def compare_self_test():
     return out
 
 
+def analysis_order_of(events):
+    out = []
+    for e in events:
+        if e[0] == "log":
+            m = OWNER_LINE.match(e[1])
+            if m:
+                out.append((m.group(1), m.group(2)))
+    return out
+
+
+def context_ids_by_execution(deps_answers):
+    """Which report ids can depend on OTHER definitions, observed by running the passes: the ids of the reports returned by
+    a pass (position in get_analysis_passes()) that put at least one question to its AnalysisContext, over every definition
+    of every project of this run (harness `c17 deps`, field per_pass).  -> (sorted ids, sorted pass positions)"""
+    ids, passes = set(), set()
+    for d in deps_answers:
+        for r in d.get("runs", []):
+            for x in r.get("defs", []):
+                for i, pp in enumerate(x.get("per_pass", [])):
+                    if pp.get("questions"):
+                        passes.add(i)
+                        ids |= set(pp.get("ids", []))
+    return sorted(ids), sorted(passes)
+
+
+def texts_list(t):
+    return [[o[0], o[1], v[0], v[1]] for o, v in sorted(t.items())]
+
+
+def texts_dict(l):
+    return {(x[0], x[1]): (x[2], x[3]) for x in l or []}
+
+
+def influence_of(texts, lk):
+    out = {}
+    for o, (_, text) in texts.items():
+        s = set(anon_callees(text))
+        if o in lk:
+            s |= {l[1] for l in lk[o]["lookups"]}
+        out[o] = s
+    return out
+
+
+def changed_files(pa, pb):
+    return {os.path.basename(n) for n in set(pa.files) ^ set(pb.files)}
+
+
+def model_tie(projects, runs, idxs):
+    """Model.Runner (extracted, engine e2e: ground truth collected in process, the runner's report path in Gallina) against
+    the binary, on C17's own projects and options.  -> (number judged, disagreements, failures)"""
+    by_curve = {}
+    for i in idxs:
+        by_curve.setdefault(projects[i].meta.get("curve") or "BN254", []).append(i)
+    dis, fail, n = [], [], 0
+    for curve, ii in sorted(by_curve.items()):
+        truths = [e2e.Truth(t) for t in e2e.ground_truth([projects[i] for i in ii], curve)]
+        rr = []
+        for j, i in enumerate(ii):
+            r = dict(runs[i])
+            r["p"] = j
+            # e2e reads the announcement of a definition with its own strict pattern: hand it the canonical wording
+            r["events"] = [("log", "analyzing %s '%s'" % OWNER_LINE.match(e[1]).groups()) if e[0] == "log" and OWNER_LINE.match(e[1]) else e
+                           for e in r["events"]]
+            rr.append(r)
+        e2e.run_model(truths, rr)
+        for r, i in zip(rr, ii):
+            d, f = e2e.judge(truths, r)
+            n += 1
+            if d:
+                dis.append({"project": projects[i].describe(), "kind": "model-runner", "what": "; ".join(d)[:500]})
+            if f:
+                fail.append({"project": projects[i].describe(), "kind": "model-runner-spec", "what": "; ".join(f)[:500]})
+    return n, dis, fail
+
+
 def run(ctx, proofs):
     quick = ctx.tier == "quick"
-    ctx_ids, ctx_mods = context_dependent_ids(common.REPO)
+    try:
+        src_ids, src_mods = context_dependent_ids(common.REPO)
+        reader_note = None
+    except (common.BuildError, OSError, AttributeError, KeyError) as e:
+        # the source reader is a cross-check only: the ids are OBSERVED below (context_ids_by_execution)
+        src_ids, src_mods, reader_note = [], {}, "source reader gave up: %s" % str(e)[:200]
     cli = common.build_cli()
     common.build_harness("c17")
     base = e2e.scratch_dir("C17")
     try:
         nproj = 150 if quick else 1000
+        nbig = 3 if quick else 12
         extra_same = 0 if quick else 8          # more fresh processes per case in thorough
         reps = 8 if quick else 32               # in-process repetitions (fresh thread = fresh hasher keys) of every base project
-        reps_variant = 8                        # ... and of every other distinct project text
-        structures = [gen_structure(ctx.rng, i, rich=(i % 3 != 0)) for i in range(nproj)]
+        reps_variant = 6 if quick else 8        # ... and of every other distinct project text
+        feats_seen = {}
+        structures = [gen_structure(ctx.rng, i, rich=(i % 3 != 0), feats_seen=feats_seen, big=(i < nbig)) for i in range(nproj)]
         projects, info, texts = [], [], []          # info: (structure index, variant kind); texts: {(kind, name): (file, text)}
+        wf_s_cases = wf_s_unmet = 0
         for k, st in enumerate(structures):
             for kind, s2, argv in variants(ctx, st, k, extra_same):
-                projects.append(e2e.render_structure(s2, tag="s%d-%s" % (k, kind), argv=argv))
+                projects.append(render(s2, tag="s%d-%s" % (k, kind), argv=argv))
                 projects[-1].meta["defs"] = sorted([d[0], d[1]] for f in s2["files"] for d in f["defs"])
                 texts.append(deftexts(s2))
                 info.append((k, kind))
-        # regression corpus: fixed witnesses, run 8 times each in fresh processes
+                wf_s_cases += 1
+                if not wf_sproject_holds(s2):
+                    wf_s_unmet += 1
+        # regression corpus: fixed witnesses, run 8 times each in fresh processes (the witness of the repaired defect D22 is one
+        # of them: it has no special treatment any more)
         corpus = e2e.load_corpus("C17")
         cstart = len(projects)
         for rec in corpus:
-            for _ in range(8 if not rec.get("meta", {}).get("known") else 16):
+            for _ in range(8):
                 p = e2e.project_from_description(rec)
                 p.meta = dict(rec.get("meta", {}), corpus=rec["_file"])
                 projects.append(p)
                 texts.append({})
                 info.append(("corpus:" + rec["_file"], "same"))
+        # duplicated names: 8 fresh processes each + the reduced project the repaired code must treat them like
+        dups = dup_projects(ctx.rng)
+        dup_idx = []                         # (indices of the 8 copies, index of the reduced project, deleted, shape)
+        for j, (pd, pr, ndel, shape) in enumerate(dups):
+            ii = []
+            for _ in range(8):
+                projects.append(e2e.project_from_description(pd.describe()))
+                texts.append({})
+                info.append((("dup", j), "same"))
+                ii.append(len(projects) - 1)
+            projects.append(pr)
+            texts.append({})
+            info.append((("dup", j), "reduced"))
+            dup_idx.append((ii, len(projects) - 1, ndel, shape))
         for i, p in enumerate(projects):
             p.write(base, i)
         runs = [{"p": i, "level": "info", "allow": [], "verbose": True, "sarif": True} for i in range(len(projects))]
-        e2e.execute_runs(cli, projects, runs)
+        execute_runs(cli, projects, runs)
         common.log("C17: %d runs of the binary done" % len(runs))
         groups = {}
         for i, (k, kind) in enumerate(info):
             groups.setdefault(k, []).append(i)
 
-        # ---- the real runner in process: lookups (deps) and many hash states (orders)
+        # ---- the real runner in process: lookups (deps), many hash states (orders), every analysis order (allorders)
         distinct = []                    # one representative index per distinct project content, per group
         rep_of = {}
         for k, idxs in groups.items():
@@ -533,12 +878,12 @@ def run(ctx, proofs):
                     seen[key] = i
                     distinct.append(i)
                 rep_of[i] = seen[key]
-        small_budget = 60 if quick else 400
+        small_budget = 40 if quick else 300
         dep_extra = []
         perm_cases = {}
         for i in distinct:
             x = {}
-            ud = [tuple(d) for d in projects[i].meta.get("defs", [])] if info[i][1] == "same" and not isinstance(info[i][0], str) else []
+            ud = [tuple(d) for d in projects[i].meta.get("defs", [])] if info[i][1] == "same" and isinstance(info[i][0], int) else []
             user_files = set(projects[i].argv)
             ud = [d for d in ud if texts[i].get(d, ("",))[0] in user_files]
             if 2 <= len(ud) <= 4 and small_budget > 0:
@@ -550,20 +895,111 @@ def run(ctx, proofs):
         deps = dict(zip(distinct, harness_lines("deps", [projects[i] for i in distinct], dep_extra)))
         common.log("C17: harness c17 deps done (%d projects)" % len(distinct))
         orders = dict(zip(distinct, harness_lines("orders", [projects[i] for i in distinct],
-                                                  [{"reps": reps if info[i][1] == "same" else reps_variant} for i in distinct])))
-
+                                                  [{"reps": (16 if isinstance(info[i][0], tuple) else reps) if info[i][1] == "same"
+                                                    else reps_variant} for i in distinct])))
         common.log("C17: harness c17 orders done (%d projects x %d / %d repetitions)" % (len(distinct), reps, reps_variant))
-        failing, broken = [], []
-        compared, nontrivial, seen_orders = 0, 0, set()
-        known_hit = None
-        kf = [x for x in ctx.known if x["id"] == "C17-duplicate-definition-order"]
+        exec_ids, exec_passes = context_ids_by_execution(deps.values())
+        ctx_ids = sorted(set(exec_ids) | set(src_ids))
 
-        # ---- (1) all analysis orders through the real runner's caches (small projects)
+        def maps_of(j):
+            m = deps[j].get("maps")
+            return m if isinstance(m, dict) else None
+        # every order of the name maps through the REAL analyze_functions / analyze_templates (small maps)
+        ao_budget = 60 if quick else 400
+        ao_cases = []
+        for i in distinct:
+            m = maps_of(i)
+            if not m or info[i][1] != "same" or isinstance(info[i][0], str):
+                continue
+            want = math.factorial(len(m["user_functions"])) * math.factorial(len(m["user_templates"]))
+            if 2 <= want <= 24 and (ao_budget > 0 or isinstance(info[i][0], tuple)):
+                ao_budget -= 1
+                ao_cases.append((i, want))
+        ao = dict(zip([i for i, _ in ao_cases],
+                      harness_lines("allorders", [projects[i] for i, _ in ao_cases], [{"want": w, "cap": 80 * w} for _, w in ao_cases])))
+        common.log("C17: harness c17 allorders done (%d projects)" % len(ao_cases))
+
+        failing, broken = [], []
+        hyp_failing = []                 # unmet hypotheses: reported after the failures of the property itself
+        compared, nontrivial, seen_orders = 0, 0, set()
+
+        # ---- (0) the hypotheses of the theorems, evaluated per case on the sources and on the runner's maps
+        hyp = {"KF_duplicate_definition_on_sources": {"cases": 0, "with_duplicated_names": 0},
+               "wf_project_runner_maps": {"cases": 0, "unmet": 0}, "analysis_order": {"cases": 0, "unmet": 0},
+               "wf_sproject_structures": {"cases": wf_s_cases, "unmet": wf_s_unmet}}
+        dup_of = {}
+        for i in distinct:
+            dn = duplicated_names(projects[i])
+            dup_of[i] = dn
+            hyp["KF_duplicate_definition_on_sources"]["cases"] += 1
+            if dn:
+                hyp["KF_duplicate_definition_on_sources"]["with_duplicated_names"] += 1
+            m = maps_of(i)
+            if m:
+                hyp["wf_project_runner_maps"]["cases"] += 1
+                names = list(m["all_templates"]) + list(m["all_functions"])
+                src_names = {n for _, _, n in source_definitions(projects[i])}
+                if len(set(names)) != len(names) or not set(names) <= src_names:
+                    hyp["wf_project_runner_maps"]["unmet"] += 1
+                    hyp_failing.append({"project": projects[i].describe(), "kind": "hypothesis-wf_project",
+                                    "what": "the name maps of the runner are not a one-definition-per-name selection of the "
+                                            "definitions of the sources: templates %s functions %s, names in the sources %s "
+                                            "(C17_library_is_well_formed, Model.RunnerLib)"
+                                            % (m["all_templates"][:8], m["all_functions"][:8], sorted(src_names)[:12])})
+        for i in range(len(runs)):
+            m = maps_of(rep_of[i])
+            if not m or runs[i]["exit"] not in (0, 1):
+                continue
+            hyp["analysis_order"]["cases"] += 1
+            want_o = sorted([("function", n) for n in m["user_functions"]] + [("template", n) for n in m["user_templates"]])
+            got_o = analysis_order_of(runs[i]["events"])
+            if sorted(got_o) != want_o:
+                hyp["analysis_order"]["unmet"] += 1
+                hyp_failing.append({"project": projects[i].describe(), "kind": "hypothesis-analysis_order",
+                                "what": "the definitions the binary announces (%s) are not a permutation of the user definitions of the "
+                                        "runner's maps (%s): [analysis_order] of the runner theorems does not hold for this run"
+                                        % (got_o[:8], want_o[:8])})
+        gen_dups = [i for i in distinct if isinstance(info[i][0], int) and dup_of[i]]
+        if wf_s_unmet or gen_dups:
+            broken.append({"project": projects[gen_dups[0]].describe() if gen_dups else None, "variant": None, "kind": "generator",
+                           "what": "the structure generator defined a name twice (%d structures, %d projects): wf_sproject is unmet "
+                                   "there and checks (2)/(3) would compare the wrong texts" % (wf_s_unmet, len(gen_dups))})
+
+        # ---- (1) every analysis order through the real analyze_functions / analyze_templates (small maps)
+        ao_projects = ao_orders = ao_incomplete = ao_reps = 0
+        for i, want in ao_cases:
+            a = ao[i]
+            ao_reps += a.get("reps", 0)
+            if a.get("panics") or "orders" not in a:
+                failing.append({"project": projects[i].describe(), "kind": "analysis-orders",
+                                "what": "the pipeline panicked in process (%s of %s repetitions)" % (a.get("panics"), a.get("reps"))})
+                continue
+            ao_projects += 1
+            ao_orders += len(a["orders"])
+            if len(a["orders"]) < want:
+                ao_incomplete += 1
+            for o in a["orders"]:
+                seen_orders.add((i, o["order"]))
+            if len(a["outcomes"]) > 1:
+                fa = findings_of_outcome(projects[i], a["outcomes"][0])[1]
+                fb = findings_of_outcome(projects[i], a["outcomes"][1])[1]
+                o2 = next((x for x in sorted(set(fa) | set(fb)) if fa.get(x) != fb.get(x)), ("?",))
+                both = next((o["order"] for o in a["orders"] if len(o["outcomes"]) > 1), None)
+                oa = next((o["order"] for o in a["orders"] if 0 in o["outcomes"]), "?")
+                ob = next((o["order"] for o in a["orders"] if 1 in o["outcomes"]), "?")
+                where = ("the SAME analysis order [%s] gives both (the dependence is on the hash state inside a stage, not on the order "
+                         "of the name maps)" % both[:200]) if both else "the first under the order [%s], the second under [%s]" % (oa[:200], ob[:200])
+                failing.append({"project": projects[i].describe(), "kind": "analysis-orders",
+                                "what": "AnalysisRunner::analyze_functions / analyze_templates give %d different finding multisets over "
+                                        "%d analysis orders (%d hash states): findings of %s are %s or %s; %s"
+                                        % (len(a["outcomes"]), len(a["orders"]), a["reps"], " ".join(o2), [x[:3] for x in fa.get(o2, [])][:3],
+                                           [x[:3] for x in fb.get(o2, [])][:3], where)})
+        # ---- (1b) the ANSWERS to the lookups under every order of take / passes / replace (harness deps)
         perm_orders, perm_projects = 0, 0
         for i, perms in perm_cases.items():
             rs = deps[i].get("runs", [])
             if len(rs) != len(perms) or any(r.get("panic") for r in rs):
-                failing.append({"project": projects[i].describe(), "kind": "analysis-orders",
+                failing.append({"project": projects[i].describe(), "kind": "lookup-orders",
                                 "what": "the real runner panicked or gave %d answers for %d analysis orders" % (len(rs), len(perms))})
                 continue
             perm_projects += 1
@@ -573,7 +1009,7 @@ def run(ctx, proofs):
                 got = lookups_of(r, projects[i])
                 if got != first:
                     o = next(o for o in sorted(set(first) | set(got)) if first.get(o) != got.get(o))
-                    failing.append({"project": projects[i].describe(), "kind": "analysis-orders",
+                    failing.append({"project": projects[i].describe(), "kind": "lookup-orders",
                                     "what": "lookup answers / pass reports of %s depend on the order in which the real runner analyses "
                                             "the definitions: order %s gives %s, order %s gives %s"
                                             % (" ".join(o), perms[0], str(first.get(o))[:300], perm, str(got.get(o))[:300])})
@@ -586,7 +1022,7 @@ def run(ctx, proofs):
             rs = deps[i].get("runs", [])
             if i in perm_cases and (len(rs) != len(perm_cases[i]) or any(r.get("panic") for r in rs)):
                 deps_unusable += 1
-                continue                  # reported by (1)
+                continue                  # reported by (1b)
             if not rs or rs[0].get("panic") or "defs" not in rs[0]:
                 deps_unusable += 1
                 failing.append({"project": projects[i].describe(), "kind": "deps",
@@ -604,14 +1040,30 @@ def run(ctx, proofs):
                 return infl_cache[j]
             rs = deps[j].get("runs", [])
             lk = lookups_of(rs[0], projects[j]) if rs and not rs[0].get("panic") else {}
-            out = {}
-            for o, (_, text) in texts[i].items():
-                s = set(anon_callees(text))
-                if o in lk:
-                    s |= {l[1] for l in lk[o]["lookups"]}
-                out[o] = s
-            infl_cache[j] = (out, lk)
-            return out, lk
+            infl_cache[j] = (influence_of(texts[i], lk), lk)
+            return infl_cache[j]
+
+        def inproc_of(j, group_failures=True):
+            """the one outcome of the in-process repetitions of project j, or None (more than one outcome / panic: reported)"""
+            o = orders[j]
+            outs = o.get("outcomes", [])
+            for x in o.get("analysis_orders", []):
+                seen_orders.add((j, x))
+            if len(outs) != 1:
+                a = findings_of_outcome(projects[j], outs[0]["outcome"])[1] if outs else {}
+                b = findings_of_outcome(projects[j], outs[1]["outcome"])[1] if len(outs) > 1 else {}
+                o2 = next((x for x in sorted(set(a) | set(b)) if a.get(x) != b.get(x)), ("?",))
+                failing.append({"project": projects[j].describe(), "kind": "in-process-hash-states",
+                                "what": "%d repetitions of the pipeline in one process (fresh hasher keys each) gave %d different "
+                                        "finding multisets (%s); findings of %s: %s vs %s"
+                                        % (o.get("reps", 0), len(outs), [x["count"] for x in outs], " ".join(o2),
+                                           [x[:3] for x in a.get(o2, [])][:3], [x[:3] for x in b.get(o2, [])][:3])})
+                return None
+            okp, f = findings_of_outcome(projects[j], outs[0]["outcome"])
+            if not okp:
+                failing.append({"project": projects[j].describe(), "kind": "in-process-hash-states", "what": "the pipeline panicked in process"})
+                return None
+            return f
 
         # ---- (2) the binary in fresh processes + the in-process pipeline: variants against the base project
         moved_total, allowed_total = 0, 0
@@ -623,7 +1075,11 @@ def run(ctx, proofs):
         cmp_stats = {}
         refs_memo = {}
         shapes_seen = 0
+        ids_seen = set()
+        not_analysed = 0             # definitions of a project that the runner did not analyse (included only / dropped): no check (3)
         for k, idxs in groups.items():
+            if isinstance(k, tuple):
+                continue                 # duplicated names: check (5)
             ref_i = idxs[0]
             ok0, ref = findings_of_run(projects[ref_i], runs[ref_i])
             if not ok0:
@@ -632,6 +1088,7 @@ def run(ctx, proofs):
                 continue
             if any(ref.values()):
                 nontrivial += 1
+            ids_seen.update(x[0] for v in ref.values() for x in v)
             A = texts[ref_i]
             is_corpus = isinstance(k, str)
             infl_a, lk_a = influencers(ref_i) if not is_corpus else ({}, {})
@@ -641,10 +1098,7 @@ def run(ctx, proofs):
             inproc = {}
             for j in sorted({rep_of[i] for i in idxs}):
                 o = orders[j]
-                outs = o.get("outcomes", [])
                 inproc_runs += o.get("reps", 0)
-                for ao in o.get("analysis_orders", []):
-                    seen_orders.add((j, ao))
                 if not is_corpus and info[j][1] == "same":
                     # relative iteration order of the two alphabetically first templates of the template map, per hash state
                     tos = [to.split() for to in o.get("template_orders", []) if to != "<panic>"]
@@ -652,38 +1106,23 @@ def run(ctx, proofs):
                     for to in tos if ut else []:
                         key = "first<second" if to.index(ut[0]) < to.index(ut[1]) else "second<first"
                         order_hist[key] = order_hist.get(key, 0) + 1
-                if len(outs) != 1:
+                f = inproc_of(j)
+                if f is None:
                     inproc_multi += 1
-                    known = is_corpus and projects[j].meta.get("known") and kf
-                    if known:
-                        known_hit = kf[0]["what"]
-                    else:
-                        a = findings_of_outcome(projects[j], outs[0]["outcome"])[1] if outs else {}
-                        b = findings_of_outcome(projects[j], outs[1]["outcome"])[1] if len(outs) > 1 else {}
-                        o2 = next((x for x in sorted(set(a) | set(b)) if a.get(x) != b.get(x)), ("?",))
-                        failing.append({"project": projects[j].describe(), "kind": "in-process-hash-states",
-                                        "what": "%d repetitions of the pipeline in one process (fresh hasher keys each) gave %d different "
-                                                "finding multisets (%s); findings of %s: %s vs %s"
-                                                % (o.get("reps", 0), len(outs), [x["count"] for x in outs], " ".join(o2),
-                                                   [x[:3] for x in a.get(o2, [])][:3], [x[:3] for x in b.get(o2, [])][:3])})
-                    continue
-                okp, f = findings_of_outcome(projects[j], outs[0]["outcome"])
-                if not okp:
-                    failing.append({"project": projects[j].describe(), "kind": "in-process-hash-states",
-                                    "what": "the pipeline panicked in process"})
-                    continue
-                inproc[j] = f
+                else:
+                    inproc[j] = f
             for i in idxs:
                 okv, got = (ok0, ref) if i == ref_i else findings_of_run(projects[i], runs[i])
                 kind = info[i][1]
                 if i != ref_i:
                     compared += 1
-                seen_orders.add((rep_of[i], " ".join("%s '%s'" % o for o in e2e.analysis_order(runs[i]["events"]))))
+                seen_orders.add((rep_of[i], " ".join("%s '%s'" % o for o in analysis_order_of(runs[i]["events"]))))
                 if not okv:
                     failing.append({"project": projects[i].describe(), "what": "run failed or SARIF does not match stdout (exit %s)" % runs[i]["exit"], "kind": kind})
                     continue
                 B = texts[i]
                 infl_b, lk_b = influencers(i) if not is_corpus else ({}, {})
+                ign = changed_files(projects[ref_i], projects[i])
                 fams = [("binary", ref, got)]
                 if rep_of[i] in inproc and rep_of[ref_i] in inproc and rep_of[i] != rep_of[ref_i]:
                     fams.append(("in-process", inproc[rep_of[ref_i]], inproc[rep_of[i]]))
@@ -693,27 +1132,25 @@ def run(ctx, proofs):
                         moved = allowed = 0
                     else:
                         diff, moved, allowed = compare(fa, fb, kind, A, B, infl_a, infl_b, ctx_ids,
-                                                       cmp_stats if fam == "binary" else None)
+                                                       cmp_stats if fam == "binary" else None, ignore_files=ign)
                     if fam == "binary":
                         moved_total += moved
                         allowed_total += allowed
                     if diff:
                         o = diff[0]
                         a, b = fa.get(o, []), fb.get(o, [])
-                        rec = {"project": projects[ref_i].describe(), "variant": projects[i].describe(), "kind": kind,
-                               "what": "findings of %s differ between two runs (%s, %s) although no definition it instantiates anonymously "
-                                       "changed and either no definition it looks up changed or the findings are not those of a pass that "
-                                       "receives the context: only in the first %s, only in the second %s"
-                                       % (" ".join(o), kind, fam, [x for x in a if x not in b][:2], [x for x in b if x not in a][:2])}
-                        if is_corpus and projects[i].meta.get("known") and kf:
-                            known_hit = kf[0]["what"]
-                        else:
-                            failing.append(rec)
+                        failing.append({"project": projects[ref_i].describe(), "variant": projects[i].describe(), "kind": kind,
+                                        "texts_a": texts_list(A), "texts_b": texts_list(B),
+                                        "what": "findings of %s differ between two runs (%s, %s) although no definition it instantiates anonymously "
+                                                "changed and either no definition it looks up changed or the findings are not those of a pass that "
+                                                "receives the context: only in the first %s, only in the second %s"
+                                                % (" ".join(o), kind, fam, [x for x in a if x not in b][:2], [x for x in b if x not in a][:2])})
                         break
                 # ---- (3) findings are a function of (own source, answers to the lookups, anonymously instantiated sources)
                 if not is_corpus:
                     for o, (fname, text) in B.items():
                         if o not in lk_b:
+                            not_analysed += 1
                             continue         # not analysed (included only, or dropped by the desugarer)
                         anon = tuple((n, B.get(("template", n), (None, None))[1]) for n in anon_callees(text))
                         key = (k, fname, o, text, lk_b[o]["lookups"], anon)
@@ -732,15 +1169,30 @@ def run(ctx, proofs):
                         looked = tuple(sorted((n, (B.get(("template", n)) or (None, None))[1]) for n in {l[1] for l in lk_b[o]["lookups"]}))
                         members.setdefault(key, {})[rep_of[i]] = looked
                         if key not in memo:
-                            memo[key] = (val, i)
+                            memo[key] = (val, i, looked)
                             memo_keys += 1
                         elif memo[key][0] != val:
                             j = memo[key][1]
                             what = "findings" if memo[key][0][0] != val[0] else "pass reports (real runner, in process)"
-                            broken.append({"project": projects[j].describe(), "variant": projects[i].describe(), "kind": kind,
-                                           "what": "%s of %s differ between two projects in which its source text and the answers to all "
-                                                   "its lookups (%s) are the same: Model.RunnerSrc assumes they are a function of these"
-                                                   % (what, " ".join(o), [l[1] for l in lk_b[o]["lookups"]])})
+                            rec = {"project": projects[j].describe(), "variant": projects[i].describe(), "kind": kind,
+                                   "texts_a": texts_list(texts[j]), "texts_b": texts_list(B)}
+                            if memo[key][2] == looked:
+                                # the sources of everything it looks up are the same too: no model is needed to call this a failure
+                                rec["what"] = ("%s of %s differ between two projects in which its source text and the source texts of all "
+                                               "definitions it looks up or instantiates (%s) are the same"
+                                               % (what, " ".join(o), [l[1] for l in lk_b[o]["lookups"]]))
+                                rec["kind"] = "same-sources:" + kind
+                                failing.append(rec)
+                            else:
+                                # the SOURCE of a looked-up definition differs while the recorded answer is the same: a pass that
+                                # reads more of its callee than the answer records breaks the interface ASSUMED by the model,
+                                # not (by itself) the property
+                                rec["what"] = ("%s of %s differ between two projects in which its source text and the recorded answers "
+                                               "to all its lookups (%s) are the same while the source of a looked-up definition differs: "
+                                               "Model.RunnerSrc assumes the findings are a function of the answers as harness `c17 deps` "
+                                               "records them (output signals with their numbers of dimensions)"
+                                               % (what, " ".join(o), [l[1] for l in lk_b[o]["lookups"]]))
+                                broken.append(rec)
         # ---- (4) the witness of C17_referenced_definition_matters, replayed on the real code
         wit_ok = None
         wpath = os.path.join(common.VERIF, "corpus", "C17", "witness", "referenced-definition-matters.json")
@@ -749,13 +1201,13 @@ def run(ctx, proofs):
             wp = [e2e.project_from_description(w["with"]).write(base, len(projects) + 1),
                   e2e.project_from_description(w["without"]).write(base, len(projects) + 2)]
             wr = [{"p": i, "level": "info", "allow": [], "verbose": True, "sarif": True} for i in range(2)]
-            e2e.execute_runs(cli, wp, wr)
+            execute_runs(cli, wp, wr)
             wf = [findings_of_run(p, r) for p, r in zip(wp, wr)]
             wd = harness_lines("deps", wp, [{}, {}])
             own = tuple(w["definition"])
             ids = [sorted(x[0] for x in f.get(own, [])) for _, f in wf]
             looked = [[(l["name"], l["answer"]) for d in (x.get("runs") or [{}])[0].get("defs", []) if (d["kind"], d["name"]) == own
-                       for l in d["lookups"]] for x in wd]
+                       for l in d["lookups"] if l["kind"] == "template"] for x in wd]
             wit_ok = (wf[0][0] and wf[1][0] and w["expect_only_with"] in ids[0] and w["expect_only_with"] not in ids[1]
                       and [a is not None for _, a in looked[0]] == [True] and [a is not None for _, a in looked[1]] == [False])
             if not wit_ok and not failing and not broken:
@@ -763,6 +1215,74 @@ def run(ctx, proofs):
                               "looked-up template present %s / absent %s, lookups %s / %s" % (" ".join(own), ids[0], ids[1], looked[0], looked[1]),
                               {"broken": "C17_referenced_definition_matters (coq/props/C17.v) vs unused_output_signal.rs",
                                "project": wp[0].describe(), "variant": wp[1].describe(), "kind": "witness"}, no_input=True)
+        # ---- (5) duplicated names (D22 repaired): deterministic, and the FIRST definition in file order is the one analysed
+        dup_stats = {"projects": len(dup_idx), "shapes": sorted({s for _, _, _, s in dup_idx}), "deterministic": 0, "first_definition_kept": 0,
+                     "duplicate_reports_seen": 0}
+        for ii, ri, ndel, shape in dup_idx:
+            res = [findings_of_run(projects[i], runs[i]) for i in ii]
+            okr, red = findings_of_run(projects[ri], runs[ri])
+            if not okr or not all(ok for ok, _ in res):
+                failing.append({"project": projects[ii[0]].describe(), "kind": "duplicated-names",
+                                "what": "run failed or SARIF does not match stdout (exits %s)" % [runs[i]["exit"] for i in ii + [ri]]})
+                continue
+            dn = duplicated_names(projects[ii[0]])
+            if not dn or duplicated_names(projects[ri]):
+                broken.append({"project": projects[ii[0]].describe(), "variant": None, "kind": "generator",
+                               "what": "KF_duplicate_definition evaluated on the sources: %s for a project built to have a duplicated name, "
+                                       "%s for its reduced project" % (dn, duplicated_names(projects[ri]))})
+                continue
+            first = res[0][1]
+            other = next((i for i, (_, f) in zip(ii, res) if f != first), None)
+            fin = inproc_of(rep_of[ii[0]])
+            inproc_runs += orders[rep_of[ii[0]]].get("reps", 0)
+            if other is not None:
+                o2 = next(x for x in sorted(set(first) | set(res[ii.index(other)][1])) if first.get(x) != res[ii.index(other)][1].get(x))
+                failing.append({"project": projects[ii[0]].describe(), "kind": "duplicated-names",
+                                "what": "two runs of the binary on the same files, in which %s is defined more than once, display different "
+                                        "findings for %s: %s vs %s" % (dn, " ".join(o2), [x[:3] for x in first.get(o2, [])][:3],
+                                                                       [x[:3] for x in res[ii.index(other)][1].get(o2, [])][:3])})
+                continue
+            if fin is None:
+                continue                  # reported by inproc_of
+            if fin != first:
+                o2 = next(x for x in sorted(set(first) | set(fin)) if first.get(x) != fin.get(x))
+                failing.append({"project": projects[ii[0]].describe(), "kind": "duplicated-names",
+                                "what": "the binary and the pipeline in process display different findings for %s" % " ".join(o2)})
+                continue
+            dup_stats["deterministic"] += 1
+            # oracle: per definition the findings of the project without the later definitions
+            bad_o = [o for o in sorted(set(first) | set(red)) if o != ("parse",) and first.get(o, []) != red.get(o, [])]
+            extra = list(first.get(("parse",), []))
+            for x in red.get(("parse",), []):
+                if x in extra:
+                    extra.remove(x)
+            missing = [x for x in red.get(("parse",), []) if x not in first.get(("parse",), [])]
+            dup_stats["duplicate_reports_seen"] += len(extra)
+            if bad_o or missing or len(extra) != ndel or len({x[0] for x in extra}) > 1:
+                failing.append({"project": projects[ii[0]].describe(), "variant": projects[ri].describe(), "kind": "duplicated-names-first-kept",
+                                "what": "a project in which %s is defined more than once is not analysed like the project without the LATER "
+                                        "definitions (files in the order they are read - command line last to first -, then source order): findings of %s differ (%s vs %s); "
+                                        "parse-stage findings only with duplicates %s (expected %d reports of one kind, one per later "
+                                        "definition), only without %s"
+                                        % (dn, [" ".join(o) for o in bad_o][:3], [x[:3] for x in first.get(bad_o[0], [])][:3] if bad_o else "",
+                                           [x[:3] for x in red.get(bad_o[0], [])][:3] if bad_o else "", [x[:3] for x in extra][:3], ndel,
+                                           [x[:3] for x in missing][:2])})
+                continue
+            dup_stats["first_definition_kept"] += 1
+        # ---- (6) Model.Runner (extracted) against the binary on these projects: one run per distinct content of the structures
+        tie = {"judged": 0, "disagreements": 0, "spec_failures": 0, "error": None}
+        tie_idx = [i for i in distinct if isinstance(info[i][0], int) and not dup_of.get(i)]
+        try:
+            tie["judged"], tdis, tfail = model_tie(projects, runs, tie_idx)
+            tie["disagreements"], tie["spec_failures"] = len(tdis), len(tfail)
+            failing += tfail[:3]
+            for d in tdis[:3]:
+                d["what"] = "Model.Runner (extracted, engine e2e) and the binary disagree: " + d["what"]
+                failing.append(d)
+        except Exception as e:                       # noqa: the engine of C03 is another property's machinery
+            tie["error"] = "%s: %s" % (type(e).__name__, str(e)[:300])
+            broken.append({"project": None, "variant": None, "kind": "model-runner",
+                           "what": "the extracted Model.Runner could not be run against the binary (engine e2e): " + tie["error"]})
         # ---- how much check (3) can see: a group = one (structure, file, definition, own text, lookup answers, anonymously
         # instantiated texts); its size = number of DIFFERENT project contents it was met in
         sizes = {}
@@ -777,19 +1297,21 @@ def run(ctx, proofs):
                     if len(set(mem.values())) >= 2:     # ... and the source of a looked-up definition differs inside the group
                         g_strong += 1
         self_test = compare_self_test()
-        if known_hit:
-            ctx.known_finding("C17-duplicate-definition-order", known_hit)
+        failing += hyp_failing
         for f in failing[:5]:
             ctx.violation("findings are not a function of the sources: " + f["what"][:600],
                           {"input": f["project"], "project": f["project"], "variant": f.get("variant"), "kind": f["kind"], "impl": f["what"],
+                           "texts_a": f.get("texts_a"), "texts_b": f.get("texts_b"), "ctx_ids": ctx_ids,
                            "spec": "same normalised finding multiset (id, severity, message, labelled source text) per definition, "
                                    "unless a definition it looks up / instantiates anonymously changed"})
         if not failing:
             for f in broken[:3]:
                 ctx.violation("correspondence Model.RunnerSrc vs the real passes broken: " + f["what"][:600],
-                              {"input": f["project"], "project": f["project"], "variant": f.get("variant"), "kind": f["kind"],
-                               "impl": f["what"], "broken": "s_pass : list answer -> list report (coq/model/RunnerSrc.v)",
-                               "spec": "pass results depend on other definitions only through the answers to the lookups"})
+                              {"project": f["project"], "variant": f.get("variant"), "kind": f["kind"],
+                               "texts_a": f.get("texts_a"), "texts_b": f.get("texts_b"), "ctx_ids": ctx_ids,
+                               "impl": f["what"], "broken": "s_pass : list answer -> list report / s_refs (coq/model/RunnerSrc.v), or the "
+                                                            "engine named in the text",
+                               "spec": "pass results depend on other definitions only through the answers to the lookups"}, no_input=True)
         if not failing and not broken and proofs["failures"]:
             ctx.violation("proof obligations of C17 no longer check: " + "; ".join(proofs["failures"])[:500],
                           {"broken": "props/C17.v", "failures": proofs["failures"]}, no_input=True)
@@ -803,7 +1325,26 @@ def run(ctx, proofs):
             if moved_total < 5:
                 degenerate.append("only %d definitions changed their findings through a changed referenced definition" % moved_total)
             if perm_projects < 5:
-                degenerate.append("only %d small projects were driven through all analysis orders" % perm_projects)
+                degenerate.append("only %d small projects were driven through all orders of take / passes / replace" % perm_projects)
+            if ao_projects - ao_incomplete < 10:
+                degenerate.append("only %d small projects saw EVERY analysis order through the real analyze_templates (%d tried, %d "
+                                  "incomplete)" % (ao_projects - ao_incomplete, ao_projects, ao_incomplete))
+            for feat in ("intermediate", "call_from_template", "call_from_function", "component_array", "more_than_64_templates",
+                         "non_default_curve", "library_directory"):
+                if feats_seen.get(feat, 0) < (1 if feat == "more_than_64_templates" else 3):
+                    degenerate.append("feature `%s` generated %d times only" % (feat, feats_seen.get(feat, 0)))
+            kinds_now = {kind for _, kind in info}
+            for kind in ("file-added", "file-removed", "files-permuted", "definitions-permuted", "definitions-added", "definitions-removed"):
+                if kind not in kinds_now:
+                    degenerate.append("no variant of kind `%s` was generated" % kind)
+            if "CS0017" not in ids_seen:
+                degenerate.append("no under-constrained intermediate signal (CS0017) was ever reported")
+            if dup_stats["first_definition_kept"] < 8:
+                degenerate.append("only %d projects with a duplicated name were compared with their reduced project" % dup_stats["first_definition_kept"])
+            if not exec_ids:
+                degenerate.append("no pass put a question to its context in any explored definition")
+            if tie["judged"] < 100:
+                degenerate.append("only %d runs were compared with the extracted Model.Runner" % tie["judged"])
             if g_disc < 5:
                 degenerate.append("only %d groups of check (3) (same source text and same lookup answers) hold a definition that looks "
                                   "something up and was met in two different projects: the interface assumption of Model.RunnerSrc "
@@ -821,26 +1362,43 @@ def run(ctx, proofs):
         kinds = {}
         for _, kind in info:
             kinds[kind] = kinds.get(kind, 0) + 1
-        nproc_min = min(len(v) for k, v in groups.items() if not isinstance(k, str))
+        nproc_min = min(len(v) for k, v in groups.items() if isinstance(k, int))
         n_samples = nproc_min + reps
         ctx.coverage.update({
-            "evaluations": len(runs) + inproc_runs + perm_orders,
+            "evaluations": len(runs) + inproc_runs + perm_orders + ao_reps,
             "distinct_nontrivial": len(seen_orders),
             "rule": "one evaluation = one run of the pipeline on one project with fresh hasher state: the real binary in a fresh process "
-                    "(--level info --verbose --sarif-file), or the pipeline of main.rs in a fresh thread of harness `c17 orders`, or one "
-                    "analysis order driven through the real runner by harness `c17 deps`; every project is run >= %d times in fresh "
-                    "processes (unchanged, definitions permuted, files permuted, unreferenced definitions added / removed, a referenced "
-                    "definition changed), its unchanged text %d times in process and every variant text %d times in process; "
-                    "distinct-nontrivial = distinct (project text, observed analysis order) pairs" % (nproc_min, reps, reps_variant),
+                    "(--level info --verbose --sarif-file, --curve and -L as the project says), or the pipeline of main.rs in a fresh "
+                    "thread of harness `c17 orders` / `c17 allorders`, or one order of take / passes / replace driven by harness "
+                    "`c17 deps`; every project is run >= %d times in fresh processes (unchanged, definitions permuted, files permuted, "
+                    "unreferenced definitions added / removed, a file added / removed, a referenced definition changed), its unchanged "
+                    "text %d times in process and every variant text %d times in process; distinct-nontrivial = distinct (project text, "
+                    "observed analysis order) pairs" % (nproc_min, reps, reps_variant),
             "exhaustive": False,
+            "tie": "implementation against itself (repeated / permuted / extended runs of the binary and of the real AnalysisRunner in "
+                   "process) + the extracted Model.Runner against the binary on the same projects (field model_runner_tie) + the "
+                   "per-case evaluation of the interface assumed by Model.RunnerSrc; Model.RunnerLib and Model.Desugar are NOT run "
+                   "here: RunnerLib's tie is the oracle of field duplicated_names (first definition kept), Desugar's is C18's",
             "projects": len(structures), "projects_displaying_findings": nontrivial, "comparisons": compared,
+            "generated_features": feats_seen,
             "runs_per_variant_kind": kinds, "corpus_witnesses": [c["_file"] for c in corpus],
             "fresh_process_runs": len(runs), "in_process_pipeline_runs": inproc_runs,
             "in_process_projects_with_more_than_one_outcome": inproc_multi,
+            "hypotheses_evaluated": dict(hyp, note="KF_duplicate_definition is no hypothesis any more (D22 repaired): it is evaluated to "
+                                                   "route projects to check (5) and to show that the structure generator makes none; "
+                                                   "NoDup (map fst es) of the RunnerLib theorems says that FileIDs are the keys of a "
+                                                   "HashMap and is not evaluated"),
+            "duplicated_names": dup_stats,
+            "model_runner_tie": tie,
+            "all_analysis_orders_through_real_analyze_templates": {
+                "projects": ao_projects, "projects_that_saw_every_order": ao_projects - ao_incomplete, "distinct_orders": ao_orders,
+                "hash_states": ao_reps, "how": "fresh threads until every permutation of the function map and of the template map "
+                                               "(<= 24 combinations) was iterated, cap 80 x the number of orders; no hook"},
             "projects_with_dropped_template_instantiated_anonymously": shapes_seen,
             "drop_reasons": sorted({r for st in structures for r in st.get("shapes", [])}),
             "definitions_allowed_to_change": allowed_total,
             "definitions_changed_through_a_changed_reference": moved_total,
+            "definitions_not_analysed_hence_outside_check_3": not_analysed,
             "function_of_source_and_answers_keys": memo_keys,
             "function_of_source_and_answers_groups": {
                 "rule": "group = (structure, file, definition, own source text, lookups with their answers, texts of the anonymously "
@@ -855,12 +1413,15 @@ def run(ctx, proofs):
             },
             "lookup_sequences_checked_to_be_a_function_of_the_source": len(refs_memo),
             "deps_runs_unusable": deps_unusable,
-            "context_dependent_report_ids": {"ids": ctx_ids, "modules": ctx_mods,
-                                             "source": "program_analysis/src/lib.rs get_analysis_passes + report_code.rs, read on every run"},
+            "context_dependent_report_ids": {"ids": ctx_ids, "observed_by_execution": exec_ids, "passes_that_asked": exec_passes,
+                                             "read_from_source": src_ids, "modules": src_mods, "source_reader": reader_note or "ok",
+                                             "source": "ids of the reports of every pass that put a question to its context in harness "
+                                                       "`c17 deps` (all projects of this run), united with the reading of "
+                                                       "get_analysis_passes + report_code.rs when that reading succeeds"},
             "definitions_touched_through_a_lookup_only": cmp_stats.get("lookup_only", 0),
             "of_which_have_findings_of_lookup_independent_passes": cmp_stats.get("lookup_only_with_other_findings", 0),
             "compare_self_test_failures": self_test,
-            "all_analysis_orders_small_projects": perm_projects, "analysis_orders_driven_through_real_runner": perm_orders,
+            "all_lookup_orders_small_projects": perm_projects, "orders_of_take_passes_replace_driven": perm_orders,
             "relative_iteration_order_of_two_templates_per_hash_state": order_hist,
             "hash_state_samples_per_case": {"fresh_processes": nproc_min, "in_process_fresh_threads": reps},
             "probability_of_missing_a_two_outcome_order_dependence": {
@@ -875,20 +1436,38 @@ def run(ctx, proofs):
                         "log2 of the q=1/2 bound: %.1f" % math.log2(miss_probability(n_samples, 0.5)),
             },
             "spec_failures": len(failing), "model_assumption_failures": len(broken),
+            "failures_reported_as_violations": min(len(failing), 5), "failures_by_kind": {
+                k2: len([f for f in failing if f["kind"] == k2]) for k2 in sorted({f["kind"] for f in failing})},
             "refuted_witness_replayed_on_real_code": wit_ok,
-            "samples": [{"tag": projects[i].tag, "argv": projects[i].argv, "exit": runs[i]["exit"],
-                         "displayed": len([e for e in runs[i]["events"] if e[0] == "diag"])} for i in (0, len(runs) // 2, cstart - 1)],
+            "samples": [{"tag": projects[i].tag, "argv": projects[i].argv, "libs": projects[i].libs, "curve": projects[i].meta.get("curve"),
+                         "exit": runs[i]["exit"], "displayed": len([e for e in runs[i]["events"] if e[0] == "diag"])}
+                        for i in (0, len(runs) // 2, cstart - 1)],
+            "open_statements": [
+                "orders inside SSA construction, dominator trees, taint maps, declaration maps and the HashMap loops of the passes "
+                "(e.g. under_constrained_signals): no model, no theorem; sampled by the repeated runs",
+                "FileID / element-id numbering when files are given in another order: C17_file_order_irrelevant keeps d_file fixed",
+                "`beyond line numbers`: the normalisation of positions and generated names is Python, not a theorem",
+                "anonymous instantiation as a reference (desugaring copies the callee's signals): s_refs of Model.RunnerSrc holds "
+                "looked-up names only; the check treats anonymously instantiated templates as references (compare, check (3))",
+            ],
         })
         ctx.assumptions += [
-            "hash seeds are sampled (fresh process / fresh thread per run), not enumerated; all iteration orders of the name maps and of the "
-            "desugaring loops are covered by the theorems over Model.Runner / Model.RunnerSrc / Model.Desugar only",
+            "hash seeds are sampled (fresh process / fresh thread per run), not enumerated, except for the order of the two name maps of "
+            "small projects (every order through the real analyze_templates); all iteration orders of the name maps, of the map of parsed "
+            "files and of the desugaring loops are covered by the theorems over Model.Runner / Model.RunnerLib / Model.RunnerSrc / "
+            "Model.Desugar only",
             "orders inside the other stages (dominator-tree children, taint maps, declaration maps, SSA version numbers) are outside the "
             "models: their irrelevance for the findings is observed by the repeated runs only (bound above)",
             "Model.RunnerSrc: that the pass results of a definition are a function of its own source and of the answers to its lookups "
-            "(the type of s_pass; the theorems C17_findings_unchanged_by_* and the whole-project ones are consequences of it) is checked on "
+            "(the type of s_pass; the whole-project theorems are consequences of it) is checked on "
             "the explored cases (findings grouped by source text and answers coincide; %d discriminating groups, %d of them with a "
             "looked-up definition whose source differs), not proved about the Rust passes; an answer is summarised as the harness "
-            "summarises it (output signal names with their numbers of dimensions)" % (g_disc, g_strong),
+            "summarises it (output signal names with their numbers of dimensions, SORTED: the order of the declaration map is not part "
+            "of the answer)" % (g_disc, g_strong),
+            "Model.RunnerLib (file-id order, first definition kept) is not run against the code: the check compares every project with a "
+            "duplicated name with the project without the later definitions (per-definition findings equal, one parse-stage report per "
+            "deleted definition); which file gets which FileID is taken from a reading of FileStack (a stack: the command line from its "
+            "last file to its first, the includes of a file right after it), confirmed by that comparison",
             "normalisation: the project directory in messages, generated names <name>_<line>_<offset>, and positions (labelled source text "
             "is compared instead of line numbers)",
         ]
@@ -897,7 +1476,7 @@ def run(ctx, proofs):
 
 
 def replay(ctx, rep):
-    if "project" not in rep:
+    if "project" not in rep or not rep.get("project"):
         print("replay names a broken obligation, not an input:", rep.get("broken"))
         return 1
     cli = common.build_cli()
@@ -907,8 +1486,9 @@ def replay(ctx, rep):
         if rep.get("variant"):
             ps += [e2e.project_from_description(rep["variant"]).write(base, 8 + i) for i in range(4)]
         runs = [{"p": i, "level": "info", "allow": [], "verbose": True, "sarif": True} for i in range(len(ps))]
-        e2e.execute_runs(cli, ps, runs)
+        execute_runs(cli, ps, runs)
         res = [findings_of_run(p, r) for p, r in zip(ps, runs)]
+        bad = 0
         distinct = []
         for ok, f in res[:8]:
             if f not in distinct:
@@ -916,18 +1496,71 @@ def replay(ctx, rep):
         print("8 runs of the same input gave %d distinct finding multisets" % len(distinct))
         for f in distinct[:3]:
             print("  ", {" ".join(k): [x[:3] for x in v] for k, v in f.items()})
+        if len(distinct) > 1 or not all(ok for ok, _ in res):
+            bad = 1
         o = harness_lines("orders", [ps[0]], [{"reps": 32}])[0]
         print("32 repetitions in process (fresh hasher keys each): %d distinct outcomes %s; analysis orders seen: %d"
               % (len(o.get("outcomes", [])), [x["count"] for x in o.get("outcomes", [])], len(set(o.get("analysis_orders", [])))))
+        if len(o.get("outcomes", [])) > 1:
+            bad = 1
         d = harness_lines("deps", [ps[0]], [{}])[0]
+        m = d.get("maps") if isinstance(d.get("maps"), dict) else None
+        if m:
+            want = math.factorial(len(m["user_functions"])) * math.factorial(len(m["user_templates"]))
+            if 2 <= want <= 24:
+                a = harness_lines("allorders", [ps[0]], [{"want": want, "cap": 80 * want}])[0]
+                print("every analysis order through the real analyze_templates: %d of %d orders seen in %d hash states, %d distinct outcomes"
+                      % (len(a.get("orders", [])), want, a.get("reps", 0), len(a.get("outcomes", []))))
+                if len(a.get("outcomes", [])) > 1 or a.get("panics"):
+                    bad = 1
         for x in (d.get("runs") or [{}])[0].get("defs", []):
             print("   %s %s looked up: %s" % (x["kind"], x["name"], [(l["name"], l["answer"]) for l in x["lookups"]]))
         if rep.get("variant"):
-            print("variant (%s):" % rep.get("kind"))
+            kind = rep.get("kind") or "same"
+            print("variant (%s):" % kind)
             print("  ", {" ".join(k): [x[:3] for x in v] for k, v in res[8][1].items()})
-            d = harness_lines("deps", [ps[8]], [{}])[0]
-            for x in (d.get("runs") or [{}])[0].get("defs", []):
+            d2 = harness_lines("deps", [ps[8]], [{}])[0]
+            for x in (d2.get("runs") or [{}])[0].get("defs", []):
                 print("   %s %s looked up: %s" % (x["kind"], x["name"], [(l["name"], l["answer"]) for l in x["lookups"]]))
-        return 1 if len(distinct) > 1 or len(o.get("outcomes", [])) > 1 else 0
+            if kind.startswith("duplicated-names"):
+                fa, fb = res[0][1], res[8][1]
+                diff = [o2 for o2 in sorted(set(fa) | set(fb)) if o2 != ("parse",) and fa.get(o2, []) != fb.get(o2, [])]
+                print("definitions whose findings differ from the project without the later definitions:", [" ".join(x) for x in diff])
+                if diff:
+                    bad = 1
+            elif rep.get("texts_a") is not None and rep.get("texts_b") is not None:
+                A, B = texts_dict(rep["texts_a"]), texts_dict(rep["texts_b"])
+                lka = lookups_of((d.get("runs") or [{}])[0], ps[0])
+                lkb = lookups_of((d2.get("runs") or [{}])[0], ps[8])
+                ign = changed_files(ps[0], ps[8])
+                base_kind = kind.split(":")[-1]
+                for i in range(8, len(ps)):
+                    diff, _, _ = compare(res[0][1], res[i][1], base_kind, A, B, influence_of(A, lka), influence_of(B, lkb),
+                                         rep.get("ctx_ids") or ("CS0018",), ignore_files=ign)
+                    if diff:
+                        print("compare(project, variant run %d): findings of %s differ although nothing they reference changed"
+                              % (i - 8, [" ".join(x) for x in diff]))
+                        for o2 in diff[:2]:
+                            print("     project:", [x[:3] for x in res[0][1].get(o2, [])][:4])
+                            print("     variant:", [x[:3] for x in res[i][1].get(o2, [])][:4])
+                        bad = 1
+                        break
+                else:
+                    print("compare(project, variant): no definition changed that should not have")
+                if kind.startswith("same-sources:"):
+                    # check (3): same own source and same callee sources, different findings
+                    for o2 in sorted(set(A) & set(B)):
+                        if A[o2] == B[o2] and res[0][1].get(o2, []) != res[8][1].get(o2, []):
+                            callee = influence_of(A, lka).get(o2, set()) | influence_of(B, lkb).get(o2, set())
+                            if all(A.get(("template", n)) == B.get(("template", n)) for n in callee):
+                                print("findings of %s differ although its source and the sources of %s are the same" % (" ".join(o2), sorted(callee)))
+                                bad = 1
+            else:
+                fa, fb = res[0][1], res[8][1]
+                diff = [o2 for o2 in sorted(set(fa) | set(fb)) if fa.get(o2, []) != fb.get(o2, [])]
+                print("definitions whose findings differ between project and variant:", [" ".join(x) for x in diff])
+                if diff:
+                    bad = 1
+        return bad
     finally:
         fast_rmtree(base)
